@@ -24,7 +24,8 @@ func checkC14(c *core.Ctx, r *core.Report) {
 		"(1) GUARD in DoRetentionBasedDeletion — every insertion into a victim map handed to DeleteSegmentData/DeleteMetricsSegmentData is dominated by the accepting edge of `latest <= horizon` (or <), where the left side depends on the entry's latest-time field and on no earliest-time field and the right side on GetRetentionTimeMs; the horizon is now minus the retention period; entries enter the candidate list only on the org-equality edge; the selection loop examines every candidate (its only exit is loop exhaustion); " +
 		"(2) ORDER in DeleteSegmentData / DeleteMetricsSegmentData — files and in-memory metadata go first, the durable meta entry last (an interrupted pass is repeatable); " +
 		"(3) set-difference discipline in removeMetricsSegmentsByList — tags-tree directories shared with a preserved segment are un-marked only after all marks were made; " +
-		"(4) ATOMIC — segmeta.json and metricmeta.json are rewritten through tmp+rename."
+		"(4) ATOMIC — segmeta.json and metricmeta.json are rewritten through tmp+rename; " +
+		"(6) LIVE — in the scan loops over these files every line is decoded into a variable of the iteration (json.Unmarshal leaves fields absent from a line — omitempty — at the target's previous value)."
 	r.NotCovered = "arithmetic of the volume- and inode-based passes, survivors remaining searchable, idempotence as an outcome, blob-store deletion"
 	sm := newSummaries(c)
 
@@ -277,7 +278,7 @@ func checkC14(c *core.Ctx, r *core.Report) {
 	}
 
 	// ---------------------------------------------------------------- (3)
-	rmList := c.Fn(pkgMMeta, "removeMetricsSegmentsByList")
+	rmList := metricsRemovalHost(c)
 	{
 		// maps that are both marked (MapUpdate) and un-marked (delete) in this function
 		del := map[ssa.Value][]ssa.Instruction{}
@@ -487,70 +488,107 @@ func checkC14(c *core.Ctx, r *core.Report) {
 	// the lock once.
 	{
 		a := lockAnalysis(c)
-		rm := c.Fn(pkgWriter, "removeSegmetas")
 		fname := c.Obj(pkgWriter, "localSegmetaFname")
-		touches := map[*ssa.Function]bool{}
-		fileCall := func(ci ssa.CallInstruction) bool {
-			f := core.CalleeFunc(ci)
-			if f == nil || f.Pkg() == nil || f.Pkg().Path() != "os" {
-				return false
-			}
-			for _, arg := range ci.Common().Args {
-				for _, o := range c.Origins(arg, 0) {
-					if o.Kind == "global" && o.Obj == fname {
-						return true
-					}
+		checkMetaFileRewriteSection(c, r, a, pkgWriter, c.Fn(pkgWriter, "removeSegmetas"), "smrLock", "segmeta", "segmeta.json", 3, 0,
+			func(o core.Origin) bool { return o.Kind == "global" && o.Obj == fname })
+		// the same for metricmeta.json: the removal of metrics segments reads it, drops entries and renames the
+		// rewritten file into place, while AddMetricsMetaEntry appends under mMetaLock
+		mfn := c.Obj(pkgMMeta, "GetLocalMetricsMetaFName")
+		mglob := c.TryObj(pkgMMeta, "localMetricsMeta")
+		msuffix := c.TryObj(pkgMMeta, "MetricsMetaSuffix")
+		// (the file name arrives as a parameter there, so it is followed to the callers; the lock is taken by the
+		// exported entry point, the scan and the rewrite are in it or in the helper it calls)
+		checkMetaFileRewriteSection(c, r, a, pkgMMeta, c.Fn(pkgMMeta, "RemoveMetricsSegments"), "mMetaLock", "metricmeta", "metricmeta.json", 1, 3,
+			func(o core.Origin) bool {
+				if o.Kind == "const" && strings.Contains(o.Str, "metricmeta") {
+					return true // path.Join(<node dir>, MetricsMetaSuffix)
 				}
-			}
+				if o.Kind == "global" && msuffix != nil && o.Obj == msuffix {
+					return true
+				}
+				return (o.Kind == "call" && o.Obj == mfn) || (o.Kind == "global" && mglob != nil && o.Obj == mglob)
+			})
+	}
+	checkDecodeTargetFresh(c, r)
+}
+
+// metricsRemovalHost: the function that rewrites metricmeta.json when metrics segments are removed —
+// removeMetricsSegmentsByList, or RemoveMetricsSegments when the helper is written out in it.
+func metricsRemovalHost(c *core.Ctx) *ssa.Function {
+	if h := c.TryFn(pkgMMeta, "removeMetricsSegmentsByList"); h != nil {
+		return h
+	}
+	return c.Fn(pkgMMeta, "RemoveMetricsSegments")
+}
+
+// checkMetaFileRewriteSection: every access of the metadata file in host — directly, or through a callee of the
+// package that touches the file — lies where the file's lock is must-held in write mode, and host acquires the
+// lock once (the read and the rewrite are one critical section).
+func checkMetaFileRewriteSection(c *core.Ctx, r *core.Report, a *locks.Analysis, pkg string, rm *ssa.Function, lockSuffix, label, fileName string, floor, originDepth int, isFile func(core.Origin) bool) {
+	touches := map[*ssa.Function]bool{}
+	fileCall := func(ci ssa.CallInstruction) bool {
+		f := core.CalleeFunc(ci)
+		if f == nil || f.Pkg() == nil || f.Pkg().Path() != "os" {
 			return false
 		}
-		for changed := true; changed; {
-			changed = false
-			for _, fn := range c.RepoFunctions() {
-				if touches[fn] || core.FnPkgPath(fn) != core.ModPath+"/"+pkgWriter {
-					continue
-				}
-				for _, ci := range core.CallsIn(fn) {
-					callee := ci.Common().StaticCallee()
-					if fileCall(ci) || (callee != nil && touches[callee]) {
-						touches[fn] = true
-						changed = true
-						break
-					}
-				}
-			}
-		}
-		ff := a.Facts[rm]
-		n, bad := 0, 0
-		locksTaken := 0
-		for _, ci := range core.CallsIn(rm) {
-			if site, ok := a.SiteOf(ci); ok && strings.HasSuffix(site.Class.Name, "smrLock") && (site.Op == locks.OpLock || site.Op == locks.OpRLock) {
-				locksTaken++
-			}
-			callee := ci.Common().StaticCallee()
-			if !(fileCall(ci) || (callee != nil && touches[callee])) {
+		for _, arg := range ci.Common().Args {
+			if bt, ok := arg.Type().Underlying().(*types.Basic); !ok || bt.Info()&types.IsString == 0 {
 				continue
 			}
-			n++
-			held := false
-			if ff != nil {
-				for _, h := range ff.MustAt[ci] {
-					if strings.HasSuffix(h.Class.Name, "smrLock") && !h.Read {
-						held = true
-					}
+			for _, o := range c.Origins(arg, originDepth) {
+				if isFile(o) {
+					return true
 				}
 			}
-			if !held {
-				bad++
-				r.Violation("HELD", fmt.Sprintf("%s:segmeta-access#%d-inside-the-write-locked-section", shortFn(rm), n), c.Pos(ci.Pos()), "segmeta.json is read or rewritten here without smrLock held in write mode: the entries a rotation appends between this access and the rename of the rewritten file are overwritten, so a freshly rotated segment vanishes from the metadata file")
+		}
+		return false
+	}
+	for changed := true; changed; {
+		changed = false
+		for _, fn := range c.RepoFunctions() {
+			if touches[fn] || core.FnPkgPath(fn) != core.ModPath+"/"+pkg {
+				continue
+			}
+			for _, ci := range core.CallsIn(fn) {
+				callee := ci.Common().StaticCallee()
+				if fileCall(ci) || (callee != nil && touches[callee]) {
+					touches[fn] = true
+					changed = true
+					break
+				}
 			}
 		}
-		if bad == 0 {
-			r.OK("HELD", shortFn(rm)+":segmeta-accesses-inside-the-write-locked-section", c.Pos(rm.Pos()), fmt.Sprintf("%d accesses of the segmeta file, all with smrLock must-held in write mode", n))
-		}
-		r.Check(locksTaken == 1, "HELD", shortFn(rm)+":one-acquisition-of-smrLock", c.Pos(rm.Pos()), "the lock is acquired once (read and rewrite share the critical section)", fmt.Sprintf("smrLock is acquired %d times in removeSegmetas: the read and the rewrite of segmeta.json are not one critical section", locksTaken))
-		r.Floor("HELD", "accesses of the segmeta file in removeSegmetas", n, 3)
 	}
+	ff := a.Facts[rm]
+	n, bad := 0, 0
+	locksTaken := 0
+	for _, ci := range core.CallsIn(rm) {
+		if site, ok := a.SiteOf(ci); ok && strings.HasSuffix(site.Class.Name, lockSuffix) && (site.Op == locks.OpLock || site.Op == locks.OpRLock) {
+			locksTaken++
+		}
+		callee := ci.Common().StaticCallee()
+		if !(fileCall(ci) || (callee != nil && touches[callee])) {
+			continue
+		}
+		n++
+		held := false
+		if ff != nil {
+			for _, h := range ff.MustAt[ci] {
+				if strings.HasSuffix(h.Class.Name, lockSuffix) && !h.Read {
+					held = true
+				}
+			}
+		}
+		if !held {
+			bad++
+			r.Violation("HELD", fmt.Sprintf("%s:%s-access#%d-inside-the-write-locked-section", shortFn(rm), label, n), c.Pos(ci.Pos()), fmt.Sprintf("%s is read or rewritten here without %s held in write mode: the entries a rotation appends between this access and the rename of the rewritten file are overwritten, so a freshly rotated segment vanishes from the metadata file", fileName, lockSuffix))
+		}
+	}
+	if bad == 0 {
+		r.OK("HELD", shortFn(rm)+":"+label+"-accesses-inside-the-write-locked-section", c.Pos(rm.Pos()), fmt.Sprintf("%d accesses of the %s file, all with %s must-held in write mode", n, label, lockSuffix))
+	}
+	r.Check(locksTaken == 1, "HELD", shortFn(rm)+":one-acquisition-of-"+lockSuffix, c.Pos(rm.Pos()), "the lock is acquired once (read and rewrite share the critical section)", fmt.Sprintf("%s is acquired %d times in %s: the read and the rewrite of %s are not one critical section", lockSuffix, locksTaken, rm.Name(), fileName))
+	r.Floor("HELD", "accesses of the "+label+" file in "+rm.Name(), n, floor)
 }
 
 // retentionGuard: block b is dominated by the accepting edge of a comparison
@@ -651,4 +689,56 @@ func (l localFlow) from(v ssa.Value) {
 			}
 		}
 	}
+}
+
+// checkDecodeTargetFresh — clause (6).  The metadata files (segmeta.json, metricmeta.json) hold one JSON object per
+// line, written with `omitempty`: a field that has its zero value is simply absent from the line.  json.Unmarshal
+// leaves absent fields of its target untouched, so a scan loop that decodes every line into the SAME variable
+// carries the previous line's values into the next entry (a default-organisation segment that follows another
+// organisation's line is rewritten with that organisation's id, and disappears from its owner's searches after a
+// restart).  In every loop of the packages that read and rewrite these files, the target of a json.Unmarshal is a
+// variable of the iteration: allocated inside the loop, or wholly re-assigned inside it before the decode.
+func checkDecodeTargetFresh(c *core.Ctx, r *core.Report) {
+	unmarshal := c.ExtObj("encoding/json", "Unmarshal")
+	scope := map[string]bool{core.ModPath + "/" + pkgWriter: true, core.ModPath + "/" + pkgMMeta: true, core.ModPath + "/" + pkgRetention: true}
+	n := 0
+	perFn := map[string]int{}
+	for _, fn := range c.RepoFunctions() {
+		if !scope[core.FnPkgPath(fn)] {
+			continue
+		}
+		loops := core.Loops(fn)
+		for _, call := range callsTo(fn, unmarshal) {
+			lp := core.InnermostLoop(loops, call.Block())
+			if lp == nil || len(call.Call.Args) < 2 {
+				continue
+			}
+			target := call.Call.Args[1]
+			if mi, ok := target.(*ssa.MakeInterface); ok {
+				target = mi.X
+			}
+			al, ok := target.(*ssa.Alloc)
+			if !ok {
+				continue
+			}
+			if _, isStruct := al.Type().Underlying().(*types.Pointer).Elem().Underlying().(*types.Struct); !isStruct {
+				continue
+			}
+			n++
+			perFn[shortFn(fn)]++
+			fresh := lp.Body[al.Block()]
+			if !fresh && al.Referrers() != nil {
+				// wholly re-assigned in the loop before the decode
+				for _, u := range *al.Referrers() {
+					if st, ok := u.(*ssa.Store); ok && st.Addr == ssa.Value(al) && lp.Body[st.Block()] && core.InstrDominates(st, call) {
+						fresh = true
+					}
+				}
+			}
+			construct := fmt.Sprintf("%s:json-decode#%d-into-a-variable-of-the-iteration", shortFn(fn), perFn[shortFn(fn)])
+			r.Check(fresh, "LIVE", construct, c.Pos(call.Pos()), "the decode target is allocated (or wholly re-assigned) inside the scan loop",
+				"every line of the file is decoded into the same variable: json.Unmarshal leaves fields that are absent from a line (omitempty: zero values) at the previous line's value, so an entry is rewritten with another entry's organisation / sizes / flags")
+		}
+	}
+	r.Floor("LIVE", "per-line JSON decodes in the metadata file scans", n, 2)
 }
